@@ -8,6 +8,10 @@
 #include "cmd_sim.h"
 #include "cmd_mem.h"
 #include "cmd_fileio.h"
+#include "cmd_det.h"
+#include "cmd_util.h"
+#include "cmd_listing.h"
+#include "cmd_macro.h"
 
 static void register_all()
 {
@@ -19,4 +23,8 @@ static void register_all()
   register_sim();
   register_mem();
   register_fileio();
+  register_det();
+  register_util();
+  register_listing();
+  register_macro();
 }
